@@ -15,8 +15,11 @@ def fmt(n):
     return str(n)
 out = []
 tot = 0.0
+in94 = False
 for line in s.splitlines():
-    m = re.match(r"^\| (C\d\d) \| ([^|]*) \| ([^|]*) \| (.*) \|$", line)
+    if line.startswith("### "):
+        in94 = line.startswith("### 9.4 ")
+    m = in94 and re.match(r"^\| (C\d\d) \| ([^|]*) \| ([^|]*) \| (.*) \|$", line)
     if m and os.path.exists(os.path.join(V, "evidence", m.group(1) + ".json")):
         e = json.load(open(os.path.join(V, "evidence", m.group(1) + ".json")))
         c = e["coverage"]
